@@ -4,19 +4,28 @@ Decided here (the "error exactly when" half quantifies over strings and is not d
   C14-R1  panic-site inventory: every panic-capable construct (unwrap / expect, unreachable! / panic!, indexing and
           slicing, `usize` subtraction, the library calls known to panic) in a function reachable from one of the 17
           string entry points (call graph over resolved callees, Display impls included) is discharged by
-            G1  an automatic local guard on the same receiver and key in its path condition
-                (contains_key(m, k) => m.get(k).unwrap() / m[k];  position(..) = Some(i) => tokens[i], tokens[..i],
-                tokens[i+1..];  i > 0 => tokens[i-1], i - 1;  len == 1 => tokens[0];  is_some(x) => x.unwrap();
-                first position of predicate P => the arm `_ => unreachable!()` after the arm for P), or
-            G2/G3  a line of tables/panic_discharge.json, whose prerequisites (validators on every path, cache protocol,
-                restrict guard, ...) are re-verified on every run;
-          a site that is neither is a violation; a table line matching no site fails the floor;
-  C14-R2  validator placement: parse_and_validate[_extended] push a tree only after the parser, preprocessing
-          (through parse_and_minimize_*), check_hctl_var_support for *that tree* (Err otherwise) and, extended,
-          validate_and_divide_wild_cards (propagated with `?`); every string entry point evaluates only trees that come
-          out of those two functions, on the graph that was checked;
+            G1  an automatic argument on normalised terms and path conditions:
+                the unwrapped value is Some(..) / Ok(..) by construction (e.g. a look-up right after the insertion of the key);
+                a test `is Some / contains_key / if let / let-else / ?` of the same value (for maps: same key, and only
+                key-preserving updates of the map in between) dominates the use;
+                position(..) = Some(i) dominates tokens[i], tokens[..i], tokens[i+1..]; i > 0 dominates tokens[i-1], i - 1;
+                len / emptiness tests dominate literal indices; results[n] where the length of the collection is known
+                symbolically (every function on the way returns one result per input, applied to a `vec![..]` literal);
+                `unreachable!` behind a test that cannot fail (the token at a searched position is of the class the search
+                accepts - classes are evaluated, unit propagation over the path condition);
+                a case split on the shape of the tree-node parameter (partial evaluation per shape);
+                for a private helper: the same arguments at each of its call sites, with the caller's path condition;
+            G2/G3  a line of tables/panic_discharge.json, keyed by source file, kind and *where the operand comes from* (callee /
+                field / map), not by the enclosing function, whose prerequisites (validators on every path, cache protocol,
+                restrict guard, plain mode without domains, closed results) are re-verified on every run;
+          a site that is neither is a violation;
+  C14-R2  validator placement (escape analysis): in parse_and_validate[_extended] a parsed tree can reach the result (be pushed,
+          collected or returned) only under check_hctl_var_support(graph, that tree) and, extended,
+          validate_and_divide_wild_cards(that tree, context) having succeeded; the parser receives the graph's symbolic context;
+          every string entry point evaluates only trees that come out of those two functions, on the graph that was checked,
+          and propagates their errors;
   C14-R3  the errors the property lists are produced as Err values on their own paths (free / re-quantified variable,
-          unknown proposition, missing context label, too few variable sets) - shared with C07-R2 and C02-R4."""
+          unknown proposition, missing context label, too few variable sets) - shared with C07-R1/R4 and C02-R4."""
 import json
 import os
 
